@@ -1,21 +1,64 @@
+/* call_rcu / rcu_barrier scenario: real src/urcu.c + urcu-call-rcu-impl.h (memb flavor) under the controlled scheduler.
+   usage: scen_callrcu PROG SCHED ; ops per thread:
+     C<i> call_rcu(object i)   c<i> call_rcu(object i) whose callback re-enqueues object i+1   B rcu_barrier()
+     ( ) read-side section     H create and install a per-thread helper   K uninstall and free the per-thread helper
+   Helper threads are created by the library (pthread_create is interposed) and scheduled like any other thread. */
 #define RCU_MEMBARRIER
-#include "urcu_a2.c"
+#include <stdlib.h>
+/* allocations of the library are named (and never recycled) so that helper structures have canonical names in the trace */
+void *vs_named_malloc(size_t sz); void vs_named_free(void *p);
+#define malloc(x) vs_named_malloc(x)
+#define free(x) vs_named_free(x)
+#include "/repo/src/urcu.c"
+#undef malloc
+#undef free
 #include "sched.h"
-struct obj { struct rcu_head h; int id; int ran; };
-static struct obj O[6];
-static void cb(struct rcu_head *h){ struct obj *o=caa_container_of(h,struct obj,h); o->ran++; printf("%d cb %d\n", -1, o->id); }
-static char tn[8][8];
-static void treg(int t){ sprintf(tn[t],"rd%d",t); vs_region(&URCU_TLS(rcu_reader),sizeof(struct urcu_reader),tn[t]); }
-static void caller(int t){ treg(t); rcu_register_thread();
-	for(int i=0;i<2;i++){ struct obj *o=&O[t*2+i]; o->id=t*2+i; vs_call("call_rcu",o->id); call_rcu(&o->h,cb); vs_ret("call_rcu",0); }
-	vs_call("barrier",0); rcu_barrier(); vs_ret("barrier",0);
-	for(int i=0;i<2;i++) if(O[t*2+i].ran!=1) printf("VIOLATION barrier returned but cb %d ran %d times\n", t*2+i, O[t*2+i].ran);
-	rcu_unregister_thread(); }
-static void reader(int t){ treg(t); rcu_register_thread(); for(int i=0;i<3;i++){ rcu_read_lock(); rcu_read_unlock(); } rcu_unregister_thread(); }
-int main(int argc,char**argv){ setvbuf(stdout,0,_IOLBF,0);
+#include <string.h>
+#define MAXTH 6
+#define NO 10
+struct obj { struct rcu_head h; int id; int ran; int chain; };
+static struct obj O[NO];
+static char *prog[MAXTH]; static int nprog;
+static char tn[MAXTH+8][8]; static char crn[8][8]; static struct call_rcu_data *crds[8]; static int ncrd;
+static void name_crd(struct call_rcu_data *c){ (void)c; }
+static char mnames[64][8]; static int nm;
+void *vs_named_malloc(size_t sz){ void *p=calloc(1,sz<16?16:sz);
+	if(sz==sizeof(struct call_rcu_data) && ncrd<8){ sprintf(crn[ncrd],"crd%d",ncrd); vs_region(p,sz,crn[ncrd]); crds[ncrd++]=p; }
+	else if(nm<64){ sprintf(mnames[nm],"m%d",nm); vs_region(p,sz<16?16:sz,mnames[nm]); nm++; }
+	return p; }
+void vs_named_free(void *p){ (void)p; }
+static void cb(struct rcu_head *h){ struct obj *o=caa_container_of(h,struct obj,h);
+	vs_call("cb",o->id); o->ran++;
+	if(o->chain){ struct obj *n=&O[o->id+1]; vs_quiet_begin(); name_crd(get_call_rcu_data()); vs_quiet_end(); vs_call("call_rcu",n->id); call_rcu(&n->h,cb); vs_ret("call_rcu",n->id); }
+	vs_ret("cb",o->id); }
+static void body(int t){
+	sprintf(tn[t],"rd%d",t); vs_region(&URCU_TLS(rcu_reader).ctr,sizeof(unsigned long),tn[t]);
+	vs_quiet_begin(); rcu_register_thread(); vs_quiet_end();
+	int depth=0;
+	for(char *p=prog[t]; *p; p++){
+		switch(*p){
+		case 'C': case 'c': { struct obj *o=&O[p[1]-'0']; o->chain=(*p=='c'); p++;
+			/* resolving (and possibly creating) the helper is library code too, but naming its region must not be scheduled */
+			struct call_rcu_data *c=get_call_rcu_data(); vs_quiet_begin(); name_crd(c); vs_quiet_end();
+			vs_call("call_rcu",o->id); call_rcu(&o->h,cb); vs_ret("call_rcu",o->id); break; }
+		case 'B': vs_call("barrier",0); rcu_barrier(); vs_ret("barrier",0); break;
+		case '(': vs_call("lock",depth); rcu_read_lock(); vs_ret("lock",0); depth++; break;
+		case ')': vs_call("unlock",depth); rcu_read_unlock(); vs_ret("unlock",0); depth--; break;
+		case 'H': { vs_call("mkhelper",0); struct call_rcu_data *c=create_call_rcu_data(0,-1); set_thread_call_rcu_data(c); vs_quiet_begin(); name_crd(c); vs_quiet_end(); vs_ret("mkhelper",(unsigned long)c); break; }
+		case 'K': { struct call_rcu_data *c=get_thread_call_rcu_data(); vs_call("freehelper",(unsigned long)c); set_thread_call_rcu_data(NULL); call_rcu_data_free(c); vs_ret("freehelper",0); break; }
+		}
+	}
+	rcu_unregister_thread();
+}
+int main(int argc,char**argv){
+	static char obuf[1<<22]; setvbuf(stdout,obuf,_IOFBF,sizeof obuf);
+	if(argc<3) return 9;
+	for(char *s=strtok(argv[1],"/"); s && nprog<MAXTH; s=strtok(0,"/")) prog[nprog++]=s;
+	for(int i=0;i<NO;i++) O[i].id=i;
+	rcu_init();
 	vs_region(&rcu_gp.ctr,8,"gp.ctr"); vs_region(&rcu_gp.futex,4,"gp.futex"); vs_region(&rcu_gp_lock,sizeof rcu_gp_lock,"gp_lock"); vs_region(&rcu_registry_lock,sizeof rcu_registry_lock,"reg_lock");
 	vs_region(&gp_waiters,sizeof gp_waiters,"waiters"); vs_region(&call_rcu_mutex,sizeof call_rcu_mutex,"crmutex"); vs_region(O,sizeof O,"O");
-	vs_spawn(caller); vs_spawn(caller); vs_spawn(reader);
-	vs_run(argc>1?argv[1]:"");
-	for(int i=0;i<4;i++) if(O[i].ran!=1) printf("VIOLATION cb %d ran %d times\n", i, O[i].ran);
+	for(int i=0;i<nprog;i++) vs_spawn(body);
+	vs_run(argv[2]);
+	for(int i=0;i<NO;i++) printf("- ran %d %d\n", i, O[i].ran);
 	fflush(stdout); _exit(0); }
